@@ -5441,3 +5441,7 @@ mod tests {
         assert!(indices.is_empty());
     }
 }
+
+#[cfg(kani)]
+#[path = "/verif/kani/arrow-ord/sort.rs"]
+mod verif_kani;
